@@ -118,15 +118,16 @@ Theorem C05_children_exact : forall sel sf cf root,
 Proof. exact get_children_exact. Qed.
 Print Assumptions C05_children_exact.
 
-(* Order: if b is reached from a (a <> b) and both are returned, a comes before b — with
-   children_first, after b. *)
+(* Order: if b is any object of the containment subtree of a (a <> b) and both are returned, a comes
+   before b — with children_first, after b.  (In a tree with distinct identities a returned object
+   below a can only have been reached through a: walked_descendant_reached.) *)
 Theorem C05_children_order : forall sel sf cf root a b,
-  uniq root -> reach sf a b -> a <> b ->
+  uniq root -> In b (nodes a) -> a <> b ->
   In a (get_children sel root cf sf) -> In b (get_children sel root cf sf) ->
   exists l1 l2 l3,
     get_children sel root cf sf =
     if cf then l1 ++ b :: l2 ++ a :: l3 else l1 ++ a :: l2 ++ b :: l3.
-Proof. exact children_order. Qed.
+Proof. exact children_order_desc. Qed.
 Print Assumptions C05_children_order.
 
 Theorem C05_children_of_type : forall t sf cf root,
